@@ -6,6 +6,7 @@ import Driver.C06
 import Driver.C19
 import Driver.C09
 import Driver.Serve
+import Driver.C02ctx
 import Driver.C11
 import Driver.C18
 import Driver.C07
@@ -16,4 +17,4 @@ import Driver.C08
 import Driver.C14
 
 def main : IO Unit :=
-  Driver.runMain [Driver.C17.handle, Driver.C15.handle, Driver.C16.handle, Driver.C06.handle, Driver.C19.handle, Driver.C09.handle, Driver.Serve.handle, Driver.C11.handle, Driver.C14.handle, Driver.C18.handle, Driver.C07.handle, Driver.C20.handle, Driver.C05.handle, Driver.C12.handle, Driver.C08.handle]
+  Driver.runMain [Driver.C17.handle, Driver.C15.handle, Driver.C16.handle, Driver.C06.handle, Driver.C19.handle, Driver.C09.handle, Driver.Serve.handle, Driver.C02ctx.handle, Driver.C11.handle, Driver.C14.handle, Driver.C18.handle, Driver.C07.handle, Driver.C20.handle, Driver.C05.handle, Driver.C12.handle, Driver.C08.handle]
